@@ -310,9 +310,17 @@ def run_history(seed, prop, model, rep, length):
             if k < 30:
                 if not bulked and rng.chance(1, 10):
                     bulked = True
-                    h.op_bulk(rng.range(90, 260))
+                    tracked = rng.chance(1, 2)
+                    if tracked and not h.has_ck:
+                        rcu, ju, _, _ = r.mono("checkpoint", "update")
+                        h.events.append(["update", None, False])
+                        h.log.append("update")
+                        if rcu == 0 and ju is not None:
+                            h.has_ck = True
+                            last_update_return = real_ck(ju["checkpoint"])
+                    h.op_bulk(rng.range(500, 800) if tracked else rng.range(90, 260))
                     rep.count("bulk_writes")
-                    if rng.chance(1, 2):
+                    if tracked:
                         # tracked: the names come back through `git diff` (several pipe reads long)
                         h.op_addall()
                         h.op_commit()
@@ -341,6 +349,16 @@ def run_history(seed, prop, model, rep, length):
                 pend = rng.chance(1, 2)
                 if pend:
                     args.append("-p")
+                    emptied = None
+                    if rng.chance(1, 4):
+                        # a committed file is truncated to nothing: recorded as an (empty) file, not as absent
+                        committed = [q for q in h.existing_files() if q in h.tree_of("HEAD") and not q.endswith(".log")]
+                        if committed:
+                            emptied = rng.pick(committed)
+                            full = os.path.join(r.dir, emptied)
+                            open(full, "w").close()
+                            h.events.append(["write", emptied, 0])
+                            h.log.append("write %r := 0 (truncated)" % emptied)
                     if rng.chance(1, 3):
                         # a deletion / move of a committed file that the pending map will record
                         committed = [q for q in h.existing_files() if q in h.tree_of("HEAD")]
@@ -397,7 +415,9 @@ def run_history(seed, prop, model, rep, length):
                     # a later edit re-flags exactly the targets affected by that path
                     if rng.chance(2, 3):
                         kind = rng.below(3)
-                        if kind == 0:
+                        if emptied and os.path.isfile(os.path.join(r.dir, emptied)) and os.path.getsize(os.path.join(r.dir, emptied)) == 0:
+                            p = h.op_delete(emptied)      # the emptied file disappears: that is a change
+                        elif kind == 0:
                             p = h.op_write(h.pick_new_path(), allow_empty=False)
                         elif kind == 1 and h.existing_files():
                             p = h.op_write(rng.pick(h.existing_files()), allow_empty=False)
